@@ -27,7 +27,7 @@ impl Machine {
     fn store(&mut self, addr: i32, v: u32, n: usize) { for i in 0..n { self.mem.insert(addr.wrapping_add(i as i32), (v >> (8 * i)) as u8); } }
     /// executes one node; false = instruction outside the interpreted subset (stop checking this program)
     fn step(&mut self, n: &ParserNode) -> bool {
-        if matches!(n, ParserNode::Branch(_) | ParserNode::JumpLink(_)) { return true; }   // control transfer is handled by the caller
+        if matches!(n, ParserNode::Branch(_) | ParserNode::JumpLink(_) | ParserNode::JumpLinkR(_) | ParserNode::FuncEntry(_)) { return true; }   // control transfer is handled by the caller
         let lower = |s: String| s.to_lowercase();
         match n {
             ParserNode::Arith(x) => { let v = rv32(&lower(format!("{:?}", x.inst.get())), self.r(x.rs1.get()), self.r(x.rs2.get())); self.w(x.rd.get(), v); true }
@@ -91,11 +91,32 @@ pub fn check_program(src: &str) -> Option<String> {
         let label_at = |name: &str| nodes.iter().position(|x| x.labels().iter().any(|l| l.get().as_str() == name));
         let mut pc = 0usize;
         let mut steps = 0;
+        // "original" values and stack offsets are relative to the entry of the enclosing function: one snapshot per activation
+        let mut entry = init;
+        let mut calls: Vec<(usize, [i32; 32])> = Vec::new();
         while pc < nodes.len() && steps < 400 {
             steps += 1;
             let node = &nodes[pc];
             let pn = node.node();
             if pn.is_ecall() { break; }
+            if pn.is_instruction() {
+                for (reg, val) in node.reg_values_in().iter() {
+                    if let Some(want) = den(val, &entry) {
+                        let have = m.r(reg);
+                        if have != want {
+                            return Some(format!("before `{}` the analyzer claims {reg} = {val} (= {want} when the entry registers are seed {seed}), the machine has {have}; program: {src:?}", pn.raw_text_safe()));
+                        }
+                    }
+                }
+                for (loc, val) in node.memory_values_in().iter() {
+                    if let (MemoryLocation::StackOffset(o), Some(want)) = (loc, den(val, &entry)) {
+                        match m.load(entry[2].wrapping_add(*o), 4) {
+                            Some(have) if have as i32 == want => {}
+                            other => return Some(format!("before `{}` the analyzer claims stack slot sp0{o:+} holds {val} (= {want}), the machine has {other:?}; program: {src:?}", pn.raw_text_safe())),
+                        }
+                    }
+                }
+            }
             // branch decision before the instruction's effects (branches write no register)
             let mut next = pc + 1;
             match &pn {
@@ -108,16 +129,33 @@ pub fn check_program(src: &str) -> Option<String> {
                     if taken { match label_at(x.name.get().as_str()) { Some(t) => next = t, None => break } }
                 }
                 ParserNode::JumpLink(x) => {
-                    if x.rd.get().to_num() != 0 { break; }       // calls are outside the interpreted subset
-                    match label_at(x.name.get().as_str()) { Some(t) => next = t, None => break }
+                    let Some(t) = label_at(x.name.get().as_str()) else { break };
+                    match x.rd.get().to_num() {
+                        0 => next = t,
+                        1 => {
+                            // call: the callee is executed for real; it must itself respect the convention
+                            if calls.len() >= 8 { break; }
+                            calls.push((pc + 1, entry));
+                            m.regs[1] = 0x0040_0000 + 4 * (pc as i32 + 1);
+                            next = t;
+                        }
+                        _ => break,
+                    }
+                }
+                ParserNode::FuncEntry(_) => { entry = m.regs; }
+                ParserNode::JumpLinkR(x) => {
+                    // only `ret` (jalr x0, 0(ra)) is interpreted
+                    if !(x.rd.get().to_num() == 0 && x.rs1.get().to_num() == 1 && x.imm.get().value() == 0) { break; }
+                    match calls.pop() { Some((ret_pc, saved)) => { next = ret_pc; entry = saved; } None => break }
                 }
                 _ => {}
             }
+            let is_call = matches!(&pn, ParserNode::JumpLink(x) if x.rd.get().to_num() == 1);
             if !m.step(&pn) { break; }
             if std::env::var("VALUES_DEBUG").is_ok() { eprintln!("seed {seed} pc {pc} `{}` regs_out {} mem_out {}", pn.raw_text_safe(), node.reg_values_out(), node.memory_values_out()); }
-            if pn.is_instruction() {
+            if pn.is_instruction() && !is_call && !pn.is_return() {
                 for (reg, val) in node.reg_values_out().iter() {
-                    if let Some(want) = den(val, &init) {
+                    if let Some(want) = den(val, &entry) {
                         let have = m.r(reg);
                         if have != want {
                             return Some(format!("after `{}` the analyzer claims {reg} = {val} (= {want} when the entry registers are seed {seed}), the machine has {have}; program: {src:?}", pn.raw_text_safe()));
@@ -125,8 +163,8 @@ pub fn check_program(src: &str) -> Option<String> {
                     }
                 }
                 for (loc, val) in node.memory_values_out().iter() {
-                    if let (MemoryLocation::StackOffset(o), Some(want)) = (loc, den(val, &init)) {
-                        let addr = init[2].wrapping_add(*o);
+                    if let (MemoryLocation::StackOffset(o), Some(want)) = (loc, den(val, &entry)) {
+                        let addr = entry[2].wrapping_add(*o);
                         match m.load(addr, 4) {
                             Some(have) if have as i32 == want => {}
                             other => return Some(format!("after `{}` the analyzer claims stack slot sp0{o:+} holds {val} (= {want}), the machine has {other:?}; program: {src:?}", pn.raw_text_safe())),
@@ -182,6 +220,10 @@ pub fn search(v: &serde_json::Value) -> i32 {
         "addi sp, sp, -8\nsw ra, 4(sp)\nbnez a0, other\nsw s0, 0(sp)\nj join\nother:\nsw s1, 0(sp)\njoin:\nlw t0, 0(sp)\nlw ra, 4(sp)\naddi sp, sp, 8",
         "li t0, 0\nli t1, 3\nloop:\naddi t0, t0, 1\nblt t0, t1, loop\nmv t2, t0",
         "addi sp, sp, -16\nli t0, 4\nloop:\naddi sp, sp, -4\naddi t0, t0, -1\nbnez t0, loop\nmv t1, sp",
+        "main:\nli s0, 5\nli t0, 6\nli a0, 7\njal ra, f\nadd t1, s0, x0\nadd t2, t0, x0\nadd t3, a0, x0\nli a7, 10\necall\nf:\naddi sp, sp, -4\nsw s0, 0(sp)\nli s0, 9\nli t0, 1\nli a0, 2\nlw s0, 0(sp)\naddi sp, sp, 4\nret",
+        "main:\naddi sp, sp, -8\nsw ra, 4(sp)\nli t0, 3\nsw t0, 0(sp)\njal ra, g\nlw t1, 0(sp)\nlw ra, 4(sp)\naddi sp, sp, 8\nli a7, 10\necall\ng:\naddi sp, sp, -4\nsw s1, 0(sp)\naddi s1, a0, 1\nmv a0, s1\nlw s1, 0(sp)\naddi sp, sp, 4\nret",
+        "main:\nli a0, 2\njal ra, h\nmv t0, a0\nli a0, 0\njal ra, h\nmv t1, a0\nli a7, 10\necall\nh:\nbeqz a0, zero_case\nli a0, 10\nret\nzero_case:\nli a0, 20\nret",
+        "main:\nli s2, 1\nli t0, 0\nli t1, 3\nloop:\nmv a0, t0\njal ra, k\naddi s2, s2, 1\nli t1, 3\naddi t0, a0, 1\nblt t0, t1, loop\nmv t2, s2\nli a7, 10\necall\nk:\nret",
         "li t0, -2147483648\nli t1, -1\ndiv t2, t0, t1\nrem t3, t0, t1\ndiv t4, t0, x0\nremu t5, t0, x0\nmulhsu t6, t1, t1",
     ];
     for p in fixed { if run(p.to_string()) { return 1; } }
